@@ -61,9 +61,10 @@ P["C13"] = dict(level="exploration", design="DESIGN.md 7.1", assumptions=[
   "receive shapes follow send shapes per link (single integers or arrays of one length), as every in-tree user does",
   "a link whose Send returned false (half-written frame) is not used again; nothing is asserted on it beyond integrity",
   "tampering that hits only the unauthenticated IV bytes: delivered values form an in-order sub-sequence of the sent ones (the statement promises no more); chunked mode under tampering: integrity only; without authentication nothing is asserted under tampering",
-  "liveness budget: 12*(pending+n^2+4) zero-time-out Receive calls per receiver once all bytes are visible"],
- quick=[leg("aio","plain",5000,16,32,60), leg("aio","asan",1200,10,16,120)],
- thorough=[leg("aio","plain",150000,16,256,60,1100), leg("aio","asan",20000,10,64,120,600)],
+  "liveness budget: 12*(pending+n^2+4) zero-time-out Receive calls per receiver once all bytes are visible",
+  "full-stack legs (dkg --fullstack): aiounicast_select is the transport under the real reliable broadcast and the real multi-party protocols (3..7 parties, two channel sets, authenticated / encrypted / chunked per run); only benign byte faults there (latency, writes arriving in two pieces, short reads and writes, EINTR); oracle: every integer an endpoint returns is the head of the per-link model of accepted integers, and a sender-specific receive never times out while an accepted value has been completely visible for longer than its time-out"],
+ quick=[leg("aio","plain",5000,16,32,60), leg("aio","asan",1200,10,16,120), leg("dkg","plain",96,16,4,120,None,["--fullstack","1"]), leg("dkg","asan",20,10,2,240,None,["--fullstack","1"])],
+ thorough=[leg("aio","plain",150000,16,256,60,1100), leg("aio","asan",20000,10,64,120,600), leg("dkg","plain",20000,16,16,120,600,["--fullstack","1"]), leg("dkg","asan",2000,10,4,240,300,["--fullstack","1"])],
  text="Seeded search over byte-stream fragmentations (release-k-bytes ops: reads ending inside the IV, inside the MAC tag, exactly at the newline; coalesced frames), scripted short reads/writes, EINTR/EAGAIN (incl. the sleep(1) back-off of the polling variant), EOF after an arbitrary prefix, byte flips/insertions/deletions in IV, line and tag, frame drop/dup/swap/replay, across {select,nonblock} x {auth} x {enc} x {chunked} x {single,array} and all three receive schedulers, against a FIFO reference model per link; bounded liveness after all bytes are visible. Both real channel classes run unmodified over simulated descriptors.",
  note="trusted: SimFd as a model of kernel pipes/select, libgcrypt; the oracle is deliberately narrowed for IV-only tampering and chunked mode as the statement allows")
 P["C14"] = dict(level="exploration", design="DESIGN.md 7.2", assumptions=[
@@ -78,6 +79,7 @@ P["C14"] = dict(level="exploration", design="DESIGN.md 7.2", assumptions=[
  note="trusted: the harness oracle (payload attribution), SimUnicast as a faithful model of an authenticated FIFO integer stream, libgmp/libgcrypt; the aiounicast_select byte layer is judged separately (C13)")
 SYNC = ["synchrony assumption of the protocols: honest<->honest latency <= 1 s and honest clock skew <= 3 s, private-channel time-out 3..5 s, broadcast time-out 60..90 s > 3*f*T_u + 10 s; a run in which an honest party nevertheless timed out on another honest party (drift caused by a selectively silent faulty party) is counted as excluded and not judged",
    "at most t <= (n-1)/3 faulty parties (the same t is used for the reliable broadcast, as in the test-suite): the library's own simulate_faulty_behaviour switch, silence from the start, crash after k messages, links that drop or alter messages per recipient",
+   "transport: SimUnicast (in-memory integer links) in seven of eight runs; in one of eight the library's own aiounicast_select over simulated descriptors ('full stack': authenticated / encrypted / chunked per run, bytes delayed, split, read and written short, select interrupted) carries both channel sets",
    "small groups (512..768-bit p, 160..200-bit q); messages to sign are distinct within a run (the channel ID of a signing run contains the message); a Pedersen-VSS secret 0 is avoided for t = 0 (observation O2)",
    "all findings of this session are repaired (known_findings.json holds only fixed entries, which suppress nothing)"]
 P["C15"] = dict(level="exploration", design="DESIGN.md 7.3", assumptions=SYNC,
